@@ -90,6 +90,18 @@ class Ctx:
     def reset_table(self):
         self.driver().reset()
         self._last_table = 0
+        self.flows_seen = set()
+
+    def fresh_flow(self, e, sp, dp, fixed=False):
+        """A source port such that (client, server, sp, dp) has not been used since the last table reset: a second
+        session on a tuple that still has a control block would continue the first one's stream."""
+        seen = self.__dict__.setdefault("flows_seen", set())
+        n = 0
+        while (e.cip, e.sip, sp, dp) in seen and not fixed and n < 100:
+            sp = self.rng.getrandbits(16)
+            n += 1
+        seen.add((e.cip, e.sip, sp, dp))
+        return sp
 
     def close(self):
         if self.drv is not None:
@@ -105,6 +117,7 @@ class Ctx:
         if reset:
             d.reset()
             self._last_table = 0
+            self.flows_seen = set()
         self.history = []
         self.record = record
 
